@@ -33,7 +33,13 @@ pub enum TCase {
     SleepReject(i32),
     /// sequence of statements (source text) checked for its ordered explicit-access trace
     Trace(String),
+    /// a region made of explicit statements only, between two marker strobes, after a context that makes
+    /// them look redundant: it must take the same number of cycles at every optimisation level
+    Region(usize, String),
 }
+
+pub const REGION_CTX: [&str; 7] = ["", "a = 0; X = 3;", "X = a + b;", "Y = a & 3;", "a = 5;", "X = a; Y = a;", "b = a;"];
+pub const REGION_STMTS: [&str; 12] = ["load(X);", "load(Y);", "store(X);", "store(Y);", "load(0);", "load(5);", "load(a);", "store(b);", "strobe(R3);", "load(*R1);", "store(*R2);", "csleep(4);"];
 
 pub fn cases(tier: Tier) -> Vec<TCase> {
     let mut v = Vec::new();
@@ -61,6 +67,32 @@ pub fn cases(tier: Tier) -> Vec<TCase> {
     }
     for n in [-1, 0, 1, 11, 12, 100, 255, 256] {
         v.push(TCase::SleepReject(n));
+    }
+    // regions of explicit statements only
+    {
+        let n = REGION_STMTS.len();
+        let mut seqs: Vec<Vec<usize>> = Vec::new();
+        for i in 0..n {
+            seqs.push(vec![i]);
+            for j in 0..n {
+                seqs.push(vec![i, j]);
+                if tier == Tier::Thorough {
+                    for k in 0..n {
+                        seqs.push(vec![i, j, k]);
+                    }
+                }
+            }
+        }
+        // the look-ahead rules of the optimiser need a load after a store after a load
+        for (i, j, k) in [(4usize, 8usize, 9usize), (4, 8, 6), (5, 10, 9), (4, 7, 6), (6, 7, 6), (0, 2, 0), (1, 3, 1), (9, 10, 9)] {
+            seqs.push(vec![i, j, k]);
+        }
+        for c in 0..REGION_CTX.len() {
+            for sq in &seqs {
+                let text: Vec<&str> = sq.iter().map(|i| REGION_STMTS[*i]).collect();
+                v.push(TCase::Region(c, text.join(" ")));
+            }
+        }
     }
     // sequences of length <= 3 with at least one explicit statement
     let mut all: Vec<&str> = EXPLICIT.to_vec();
@@ -229,6 +261,69 @@ fn run_sleep(ns: &[i32], before: usize, after: usize) -> CaseOutcome {
         }
     }
     o.sample = json!({"kind": "csleep", "n": n, "source": case.source()});
+    o
+}
+
+fn run_region(ctx: usize, seq: &str) -> CaseOutcome {
+    let body = format!("{} strobe(M1); {} strobe(M2); r = 1;", REGION_CTX[ctx], seq);
+    let case = mk_case(&body);
+    let ident = format!("C18|region|{}", body);
+    let mut o = CaseOutcome::new(ident.clone());
+    let mut base: Option<(Vec<i64>, String)> = None;
+    for opt in LEVELS {
+        let p = match sem::prepare(&case, opt) {
+            Ok(p) => p,
+            Err(PrepFail::Rejected(e)) => {
+                o.count(&format!("rejected: {}", e.msg.chars().take(50).collect::<String>()), 1);
+                o.status = Status::Rejected;
+                return o;
+            }
+            Err(e) => {
+                o.fail(case_key(&format!("{}|{}", ident, opt)), "not-executable", format!("{} {}\n--- source\n{}", opt, prep_tag(&e), case.source()));
+                return o;
+            }
+        };
+        let inits = match exec::enumerate_inputs(&p, &case.inputs) {
+            Ok(i) => i,
+            Err(e) => {
+                o.status = Status::Skipped(e);
+                return o;
+            }
+        };
+        let mut m = sem::machine_for(&case, &p);
+        let mut deltas: Vec<i64> = Vec::new();
+        for init in inits.iter().take(12) {
+            let (st, _fs) = exec::run_emu(&mut m, p.entry, init, 100_000);
+            o.evals += 1;
+            if st != Stop::Returned {
+                o.fail(case_key(&format!("{}|{}", ident, opt)), "does-not-return", format!("{}: {:?}\n--- source\n{}", opt, st, case.source()));
+                return o;
+            }
+            let m1: Vec<u64> = m.cpu.log.iter().filter(|a| a.addr == 0x3a && a.kind == AccKind::Write).map(|a| a.cycle).collect();
+            let m2: Vec<u64> = m.cpu.log.iter().filter(|a| a.addr == 0x3b && a.kind == AccKind::Write).map(|a| a.cycle).collect();
+            if m1.len() != 1 || m2.len() != 1 {
+                o.fail(case_key(&format!("{}|{}", ident, opt)), "markers-lost", format!("{}: marker strobes executed {} / {} times\n--- source\n{}--- asm\n{}", opt, m1.len(), m2.len(), case.source(), sem::func_texts(&p)));
+                return o;
+            }
+            deltas.push(m2[0] as i64 - m1[0] as i64 - 3);
+        }
+        o.nontrivial = true;
+        o.outcomes.push(hash64(&format!("{:?}", deltas)));
+        match &base {
+            None => base = Some((deltas, sem::func_texts(&p))),
+            Some((b, btext)) => {
+                if *b != deltas {
+                    o.fail(
+                        case_key(&format!("{}|{}", ident, opt)),
+                        "explicit-statement-removed-or-added",
+                        format!("the region between the markers contains explicit statements only and takes {:?} cycles at -O0 but {:?} at {} (per input): one of them was removed, duplicated or changed\n--- source\n{}--- asm -O0\n{}--- asm {}\n{}", b, deltas, opt, case.source(), btext, opt, sem::func_texts(&p)),
+                    );
+                    break;
+                }
+            }
+        }
+    }
+    o.sample = json!({"kind": "region", "context": REGION_CTX[ctx], "statements": seq});
     o
 }
 
@@ -402,6 +497,7 @@ impl Check for C18 {
             TCase::SleepSeq(ns) => format!("C18|sleepseq|{:?}", ns),
             TCase::SleepReject(n) => format!("C18|reject|{}", n),
             TCase::Trace(b) => format!("C18|trace|{}", b),
+            TCase::Region(c, q) => format!("C18|region|{}|{}", c, q),
         }
     }
     fn run_case(&self, tier: Tier, idx: usize) -> CaseOutcome {
@@ -410,6 +506,7 @@ impl Check for C18 {
             TCase::SleepSeq(ns) => run_sleep(ns, 0, 0),
             TCase::SleepReject(n) => run_reject(*n),
             TCase::Trace(b) => run_trace(b),
+            TCase::Region(c, q) => run_region(*c, q),
         }
     }
     fn bounds(&self, tier: Tier) -> Value {
